@@ -11,3 +11,5 @@ add("C03.total_pair","VH_c03_total_pair",TBL,c3,{"segs":1},{"segs":2},merge=C3M,
 for o in range(8):
     for name,q,t in [("spec_pair",{"segs":1},{"segs":2}),("trans",{"segs":1},{"segs":2}),("insert_sorted",{"segs":1},{"segs":2}),("order",{"skip":True},{"params":{"segs":1,"orders":6},"harness_s":2400}),("multipath",{"segs":1},{"segs":2}),("multipath_nomed",{"segs":1},{"segs":2})]:
         add("C03.%s.o%d"%(name,o),"VH_c03_"+name,TBL,c3,q,t,merge=C3M+["table.c03order$1","(*table.Path).Compare"],expect_reach=["end"],pins={"opts":o},bounds=C3B)
+add("C11.mp_withdraw_size","VH_c11_mp_withdraw_size",TBL,tc+["table/c11.go"],{"maxlen":4200},{"maxlen":66000},expect_reach=["end"],bounds="three MP (opaque family) withdrawals whose NLRI byte lengths are symbolic 2..maxlen each, extended-message symbolic")
+add("C11.mp_nexthops","VH_c11_mp_nexthops",TBL,tc+["table/c11.go"],expect_reach=["end"],bounds="two IPv6 routes with identical attributes, each with one of 2 global and {none, 2} link-local next hops (36 combinations)")
